@@ -131,7 +131,9 @@ def gen_tu(tu, tu_defs):
     ll = os.path.join(d, 'tu.ll')
     t0 = time.time()
     opt = tu_defs.get('__OPT')    # optional optimisation level override for this TU (e.g. -O0 keeps multiplications as written)
-    cflags = [opt if (opt and f == '-O1') else f for f in CLANG_FLAGS]
+    cflags = []
+    for f in CLANG_FLAGS:
+        cflags += (opt.split() if (opt and f == '-O1') else [f])
     rc, out, _, _ = sh(['clang++-14'] + cflags + INCS + [f'-I{TOOL}'] + defs_args({k: v for k, v in tu_defs.items() if k != '__OPT'}) + [src, '-o', ll], timeout=600)
     if rc != 0:
         raise Inconclusive(f'clang failed on {tu}:\n' + out[-4000:])
@@ -231,7 +233,7 @@ def cbmc_cmd(q, gb, tier, trace=False, scale=1, hunt=False):
             cmd += ['--unwindset', ','.join(us)]
     if q.object_bits:
         cmd += ['--object-bits', str(q.object_bits)]
-    if q.slice_formula:
+    if q.slice_formula and not trace:   # slicing removes the input log the replay needs
         cmd += ['--slice-formula']
     if (q.solver or 'cadical') == 'cadical':   # default: minisat showed heavy-tailed run times on these instances (8 s vs > 240 s for the same query)
         cmd += ['--sat-solver', 'cadical']
@@ -336,8 +338,8 @@ def extract_nd(trace):
     vals = {}
     for m in re.finditer(r'verif_nd_log\[(\d+)l?\]\s*=\s*(-?\d+)', trace):
         vals[int(m.group(1))] = int(m.group(2)) & ((1 << 64) - 1)
-    if not vals:
-        return []
+    if not vals:   # fall back to the order of the nondet draws in the trace
+        return [int(x) & ((1 << 64) - 1) for x in re.findall(r'return_value_nondet_u64=(-?\d+)', trace)]
     return [vals.get(i, 0) for i in range(max(vals) + 1)]
 
 
